@@ -49,6 +49,9 @@ Clause(t, o, rr, oo) ==
   ELSE IF ~Range(o) THEN "range"
   ELSE IF \E i \in 1..Len(o.wr) : o.wr[i][1] < 16384 THEN "rom-write"
   ELSE IF o.r[rT] < rr[rT] THEN "t-decreased"
+  \* traces recorded for C08 carry c08 = 1: only the state invariants above are judged (the partner's
+  \* observation is judged by its own trace)
+  ELSE IF "c08" \in DOMAIN t /\ t.c08 = 1 THEN "ok"
   ELSE IF o.r2 # o.r THEN "pair-regs"
   ELSE IF o.same2 # 1 THEN "pair-mem-io"
   ELSE IF t.sem = 0 THEN "ok"
